@@ -46,4 +46,12 @@ def stepPairShared (p : Pair) (sd : Side) (l : Label) : Option Pair :=
     if !p.b.cfgGraceful || receiverCount p.a == 0 then stepPair p .b .resolve else none
   | sd, l => stepPair p sd l
 
+/-- A run of a pair under an arbitrary pair-step function (`runPair` is `runPairBy stepPair`); used to
+run the counter-model `stepPairShared` over whole interleavings. -/
+def runPairBy (stp : Pair → Side → Label → Option Pair) (p : Pair) : List (Side × Label) → Option Pair
+  | [] => some p
+  | x :: ls => match stp p x.1 x.2 with
+    | some p' => runPairBy stp p' ls
+    | none => none
+
 end Shutdown
